@@ -6,7 +6,7 @@ PID = "C05"
 PROPS = ["Props/C05.v"]
 GEN = ['Env.v']
 MODEL_IS_SPEC = False
-RULE = ("grammatical queries whose function calls are placed without regard to types (any registered or unknown function in test, comparison-operand and argument position, "
+RULE = ("grammatical queries whose function calls are placed without regard to types (any registered or unknown function in test, comparison-operand and argument position; also well-typed expressions with exactly one injected fault: wrong arity or one argument of a type its parameter does not accept; "
         "under '!', inside '&&'/'||', inside parentheses; wrong arity; every argument form) x registries = built-ins plus 0-3 random declarations over Value/Logical/Nodes; "
         "index/slice integers at lo-1, lo, hi, hi+1 for the default and a custom range; the Coq typing judgement + range predicate decide the expected outcome; a case fails if "
         "compile() accepts an ill-typed/out-of-range query, rejects a valid one, or raises anything but a JSONPathError; non-trivial = contains a call or a boundary integer")
@@ -43,7 +43,15 @@ def cases(ctx, budget):
         reg4 = [r[:4] for r in reg]
         q = []
         if rng.random() < 0.5: q.append(("child", [("name", "a")]))
-        sels = [("filter", gen.loose_test(rng, names, reg4, rng.randint(1, 3)))]
+        mode = rng.random()
+        if mode < 0.45:
+            e = gen.loose_test(rng, names, reg4, rng.randint(1, 3))
+        else:
+            e = gen.gen_test(rng, names, reg4, rng.randint(1, 3))          # well-typed ...
+            if mode < 0.85:
+                e2 = gen.inject_fault(rng, e, names, reg4)                   # ... with exactly one fault
+                e = e2 if e2 is not None else e
+        sels = [("filter", e)]
         if rng.random() < 0.5:
             b = rng.choice([lo - 1, lo, hi, hi + 1, 0, 1])
             sels.append(rng.choice([("index", b), ("slice", b, None, None), ("slice", None, b, 1), ("slice", 1, 2, b)]))
